@@ -29,7 +29,8 @@ class FailImage(c03.StubImage):
         simmp.step_point("cb", self.sim_label)
         k = _COUNTER["n"]
         _COUNTER["n"] += 1
-        if self.fail_at == "all" or k == self.fail_at or self.sim_label == self.fail_at:
+        if (self.fail_at == "all" or k == self.fail_at or self.sim_label == self.fail_at
+                or (isinstance(self.fail_at, frozenset) and (self.sim_label in self.fail_at or k in self.fail_at))):
             raise Boom(f"failure injected at {self.sim_label}")
 
     def get_parity_sign(self):
@@ -50,7 +51,7 @@ def run_stage(stage, par, fail_at, chooser=None, real=False):
         k = count["n"]
         count["n"] += 1
         log.append(label)
-        if fail_at == "all" or k == fail_at or label == fail_at:
+        if fail_at == "all" or k == fail_at or label == fail_at or (isinstance(fail_at, frozenset) and (label in fail_at or k in fail_at)):
             raise Boom(f"failure injected at {label}")
 
     if stage == "visit":
@@ -138,7 +139,12 @@ def main():
     sys.stderr = open(os.devnull, "w")       # the workers print tracebacks by design
     try:
         for stage in stages:
-            fails = {"walk": [0, 3, (0, 0, 0), (1, 1, 1)], "visit": [0, 7, (2, 3, 3)], "transform": [0, 2, (1, 1, 1)], "multi_tan": [0, "img3"], "multi_wcs": [1, "img3"]}[stage]
+            # single failing items, several failing items (at least as many as there can be workers), and every item failing
+            fails = {"walk": [0, 3, (0, 0, 0), (1, 1, 1), "all", frozenset([(1, 0, 0), (1, 0, 1), (1, 1, 0), (1, 1, 1)]), frozenset([0, 1, 2, 3])],
+                     "visit": [0, 7, (2, 3, 3), "all", frozenset([0, 1, 2, 3, 4])],
+                     "transform": [0, 2, (1, 1, 1), "all", frozenset([0, 1, 2, 3])],
+                     "multi_tan": [0, "img3", "all", frozenset(["img0", "img1", "img2", "img3"])],
+                     "multi_wcs": [1, "img3", "all", frozenset(["img0", "img1", "img2", "img3"])]}[stage]
             # serial reference (the two multi-image stages have a separate serial implementation that is not a queue stage)
             if stage in ("walk", "visit", "transform"):
                 kind, detail = run_stage(stage, 1, fails[0], real=True)
@@ -163,11 +169,17 @@ def main():
                     h.sample({"stage": stage, "workers": par, "fail_at": str(fa), "outcome": f"{kind}: {detail}"})
             # real processes
             for par in ((2, 4) if h.deep else (3,)):
-                kind, detail = real_run(stage, par, fails[-1])
+                kind, detail = real_run(stage, par, fails[3] if stage == "walk" else fails[1])
                 h.case(("real", stage, par))
                 h.count("real", f"{stage}:{kind}")
                 if kind != "raised":
-                    h.violation(f"real:{stage}:{'hang' if kind == 'hang' else 'swallowed'}", f"{stage} with {par} real worker processes and a failing item: {kind} ({detail})", input=[stage, par, str(fails[-1])])
+                    h.violation(f"real:{stage}:{'hang' if kind == 'hang' else 'swallowed'}", f"{stage} with {par} real worker processes and a failing item: {kind} ({detail})", input=[stage, par])
+                if stage == "walk":
+                    kind, detail = real_run(stage, par, "all")
+                    h.case(("real-all", stage, par))
+                    h.count("real", f"{stage}-all:{kind}")
+                    if kind != "raised":
+                        h.violation(f"real:{stage}:{'hang' if kind == 'hang' else 'swallowed'}", f"{stage} with {par} real worker processes and every callback failing: {kind} ({detail})", input=[stage, par, "all"])
     finally:
         sys.stderr = saved_err
     return h.finish()
